@@ -132,3 +132,36 @@ parse_function = Contract(
 )
 parse_function.opaque = {"get_docstring": {"ret": "none"}, "to_code": {"ret": "str"}, "_to_code": {"ret": "str"}}
 CONTRACTS.append(parse_function)
+
+# ------------------------------------------------------------------------------------------- law: a body there and back (C16-L)
+_S_ASSIGN = ("node", "ast.Assign", {"targets": ("list", [("node", "ast.Name", {"id": ("lit", "total"), "ctx": ("node", "ast.Store", {})})]),
+                                    "value": ("node", "ast.Constant", {"value": "int", "kind": None}), "type_comment": None})
+_S_EXPR = ("node", "ast.Expr", {"value": ("node", "ast.Name", {"id": ("lit", "total"), "ctx": ("node", "ast.Load", {})})})
+_S_RET0 = ("node", "ast.Return", {"value": ("node", "ast.Constant", {"value": "int", "kind": None})})
+_S_RETBARE = ("node", "ast.Return", {"value": None})
+
+function_body_roundtrip = Contract(
+    "vf.contracts.laws:function_body_roundtrip",
+    properties=["C16", "C03"],
+    note="C16, deductively: parse.function followed by emit.function (both real, inlined) on an undocumented def with one parameter whose body is two statements, "
+         "ends in `return <int>` or in a bare `return`; to_docstring / to_code / ast.parse are opaque",
+    cases=[Case("two-statements", {"function_def": _fdef([_arg("a")], [], body=[_S_ASSIGN, _S_EXPR])}, assume=["function_def.name != ''"]),
+           Case("ends-in-return-value", {"function_def": _fdef([_arg("a")], [], body=[_S_ASSIGN, _S_RET0])}, assume=["function_def.name != ''"]),
+           Case("ends-in-bare-return", {"function_def": _fdef([_arg("a")], [], body=[_S_ASSIGN, _S_RETBARE])}, assume=["function_def.name != ''"])],
+    use_contract_for=["doctrans.defaults_utils:needs_quoting"],
+    ensures=[
+        Clause("BRT-name", "result.name == function_def.name and [x.arg for x in result.args.args] == ['a']", note="same name, same parameter"),
+        Clause("BRT-carried", "len(result.body) == 3 and unchanged(result.body[1], function_def.body[0]) and unchanged(result.body[2], function_def.body[1])",
+               when=["two-statements", "ends-in-bare-return"], note="C16: after the docstring come the original statements, structurally identical and in order (a bare return included)"),
+        Clause("BRT-return-value", "len(result.body) == 3 and unchanged(result.body[1], function_def.body[0]) and typeis(result.body[2], 'Return') and "
+                                   "((function_def.body[1].value.value == 0 and unchanged(result.body[2], function_def.body[1])) or "
+                                   "(function_def.body[1].value.value != 0 and result.body[2].value is log_ast_parse_results[0].body[0].value "
+                                   "and log_ast_parse_args[0][0] == str(function_def.body[1].value.value)))",
+               when=["ends-in-return-value"], note="C16: the final `return <int>` is kept once - as it stands for 0, re-created from the value's text otherwise; nothing else changes"),
+        Clause("BRT-frame", "unchanged(function_def, old_function_def)", note="C13: the parsed tree is not modified"),
+    ],
+    canaries=["len(result.body) == 1"],
+)
+function_body_roundtrip.opaque = {"to_docstring": {"ret": "str"}, "ast_parse_fix": {"ret": ("obj", "ast.expr")}, "get_docstring": {"ret": "none"},
+                                  "to_code": {"ret": "str"}, "_to_code": {"ret": "str"}, "ast.parse": {"ret": ("obj", "ast.Module")}}
+CONTRACTS.append(function_body_roundtrip)
